@@ -36,6 +36,14 @@ func checkC01(c *Ctx, r *Report) {
 	// a lexer code may select a terminal's column only: a code translated to a nonterminal's column reads a goto
 	// entry as a shift and the parser accepts a string that contains no such derivation
 	includeSome(r, "C01.e", func(sub *Report) { c11c(c, sub, c.GetStaged()) }, "buildTranslate")
+	// "the grammar that was given to yaccgo": the rules the automaton is built from are the rules of the file — every
+	// alternative and symbol, in order, with the declared start symbol (C10.c), read by a lexer that neither drops nor
+	// merges text (C10.d). A rule read differently makes every derivation a derivation of another grammar
+	includeClauses(c, r, "C01.e", checkC10, "C10.c", "C10.d")
+	// the entry a reduction pushes carries the left-hand side from the moment the case stores it until PushStateSym
+	// copies it; the user's action runs in between and may start a nested parse (PushContex … Parser … PopContex)
+	// whose reductions go through the same ReduceFunc: the entry must be storage of this reduction alone (C07.b)
+	includeSome(r, "C01.e", func(sub *Report) { checkC07(c, sub) }, "fresh-$$-entry")
 }
 
 func c01a(c *Ctx, r *Report, st *Staged) {
